@@ -76,3 +76,22 @@ package routing
 //@ ensures forall j int :: 0 <= j && j < len(bp.bndl.CanonicalBlocks) && bp.bndl.CanonicalBlocks[j].Value.BlockTypeCode() == 194 && bp.bndl.PrimaryBlock.Destination != prophet.c.NodeId ==> forall e bpv7.EndpointID :: has(prophet.peerPredictabilities, e) == old(has(prophet.peerPredictabilities, e)) && prophet.peerPredictabilities[e] == old(prophet.peerPredictabilities[e])
 //@ ensures forall j int :: 0 <= j && j < len(bp.bndl.CanonicalBlocks) && bp.bndl.CanonicalBlocks[j].Value.BlockTypeCode() == 194 && (forall k int :: 0 <= k && k < j ==> bp.bndl.CanonicalBlocks[k].Value.BlockTypeCode() != 194) && bp.bndl.PrimaryBlock.Destination == prophet.c.NodeId ==> has(prophet.peerPredictabilities, bp.bndl.PrimaryBlock.SourceNode) && ref(prophet.peerPredictabilities[bp.bndl.PrimaryBlock.SourceNode]) == ref(*(bp.bndl.CanonicalBlocks[j].Value.(*bpv7.ProphetBlock)))
 //@ loop 0 invariant 0 <= rangeindex + 1
+
+// PRoPHET keeps the same per-bundle sent list as epidemic routing. A transmission reported as failed makes exactly
+// that peer eligible again: the first entry equal to the failed
+// sender's peer is removed from the sent list, every other entry is kept in order; a peer that is not in the list
+// leaves the list as it is.
+// govc:func (*Prophet).ReportFailure property C13
+//@ requires prophet.c != nil && prophet.c.store != nil && sender != nil
+//@ let props := uf("propsOf", "map[string]interface{}", prophet.c.store, bp.Id)
+//@ let key := "routing/prophet/sent"
+//@ requires has(props, key) && is(props[key], []bpv7.EndpointID)
+//@ ghost w int
+//@ assigns mapof(props), elems(props[key].([]bpv7.EndpointID)), prophet.c.store.$qok
+//@ ensures has(props, key) && is(props[key], []bpv7.EndpointID)
+//@ ensures (forall j int :: 0 <= j && j < old(len(props[key].([]bpv7.EndpointID))) ==> old(props[key].([]bpv7.EndpointID)[j]) != sender.GetPeerEndpointID()) ==> len(props[key].([]bpv7.EndpointID)) == old(len(props[key].([]bpv7.EndpointID)))
+//@ ensures prophet.c.store.$qok && 0 <= w && w < old(len(props[key].([]bpv7.EndpointID))) && old(props[key].([]bpv7.EndpointID)[w]) == sender.GetPeerEndpointID() && (forall j int :: 0 <= j && j < w ==> old(props[key].([]bpv7.EndpointID)[j]) != sender.GetPeerEndpointID()) ==> len(props[key].([]bpv7.EndpointID)) + 1 == old(len(props[key].([]bpv7.EndpointID)))
+//@ loop 0 invariant 0 <= i && i <= len(sentEids) && sameSlice(sentEids, old(props[key].([]bpv7.EndpointID)))
+//@ loop 0 invariant forall j int :: 0 <= j && j < i ==> sentEids[j] != sender.GetPeerEndpointID()
+//@ loop 0 invariant forall j int :: 0 <= j && j < len(sentEids) ==> sentEids[j] == old(props[key].([]bpv7.EndpointID)[j])
+//@ loop 0 decreases len(sentEids) - i
